@@ -16,7 +16,7 @@ ASSUMPTIONS = ["np.lexsort sorts rows (last column primary); equal keys are equa
                "str() of a Python int is its decimal numeral"]
 
 
-def cases(tier, rng, dist):
+def _cases(tier, rng, dist):
     for nr in range(1, 5):
         for nc in range(1, 3):
             for cells in itertools.product(range(3), repeat=nr * nc):
@@ -64,7 +64,7 @@ def rows_of(c):
     return c["x"]
 
 
-def run(c):
+def _run(c):
     if "gen" in c:
         c = dict(c); c["x"] = rows_of(c)
     x = interned(np.array(c["x"], dtype=np.int64))
@@ -143,3 +143,30 @@ def nontrivial(c, o):
 
 def key(c):
     return json.dumps([c["x"], c.get("gen")])
+
+
+# ---- failure paths (round 12): every third case is preceded by calls that the library rejects, or that fail inside a user
+# callable; they raise on the unchanged tree and must leave nothing behind (common.fail_first) ----
+
+def failing_calls(c):
+    k = c["ff"] % 3
+    wide = np.array([[1, 2, 3, 4, 5, 6, 7], [1, 2, 3, 4, 5, 6, 8], [1, 2, 3, 4, 5, 9, 9], [0, 2, 3, 4, 5, 6, 7], [0, 2, 3, 4, 5, 6, 1], [5, 5, 5, 5, 5, 5, 0], [5, 5, 5, 5, 5, 5, 1]])
+    # (not failures: calls on a WIDER and LONGER table interleaved with the cases -- two tables examined in alternation)
+    def widecalls():
+        qa.find_consecutive_duplicate_rows(wide); qa.find_duplicate_rows(wide); qa.find_consecutive_duplicate_rows(wide, as_string=True)
+        raise Abort()
+    return [("calls on a wider table first", widecalls),
+            [("1-d input", lambda: qa.find_duplicate_rows(np.array([1, 2, 2]))), ("1-d input", lambda: qa.find_consecutive_duplicate_rows(np.array([1, 2, 2]))),
+             ("scalar input", lambda: qa.find_duplicate_rows(3))][k]]
+
+
+def cases(tier, rng, dist):
+    return mark_ff(_cases(tier, rng, dist))
+
+
+def run(c):
+    ff = fail_first(failing_calls(c)) if "ff" in c else None
+    o = _run(c)
+    if ff is not None and isinstance(o, dict):
+        o["ff"] = ff
+    return o
